@@ -68,8 +68,11 @@ Proof. destruct a, b; simpl; intros; congruence. Qed.
 Lemma in_add_res : forall r x l, In r (add_res x l) -> r = x \/ In r l.
 Proof. intros r x l. unfold add_res. destruct (has_res x l); simpl; intros H; auto. destruct H; auto. Qed.
 
+(* every kind of resource a connection can hold has its release statement in rfbClientConnectionGone *)
+Lemma every_resource_has_a_release_site : forall r, gone_releases r = true.
+Proof. destruct r; reflexivity. Qed.
 Lemma filter_leak_nil : forall l, filter (fun r => negb (gone_releases r)) l = [].
-Proof. induction l as [|x t IH]; simpl; auto. Qed.
+Proof. induction l as [|x t IH]; simpl; auto. rewrite every_resource_has_a_release_site. simpl. exact IH. Qed.
 
 (* ------------------------------------------------------------------ invariants *)
 Definition life_ok (l : life) : Prop :=
@@ -1047,6 +1050,173 @@ Theorem iteration_yields_open_only : forall s k, is_open s k = true ->
 Proof.
   intros s k H. unfold is_open in H. destruct (live s k) as [c|] eqn:E; [|discriminate].
   destruct (live_some _ _ _ E). eauto.
+Qed.
+
+(* ---- the iterator as a function: exactly the live, open records; a freed record never comes back *)
+Lemma bstep_freed_stays : forall k s s', bstep k s s' -> forall j c, get s j = Some c ->
+  l_freed (c_life c) = true -> get s' j = Some c.
+Proof.
+  intros k s s' H j c Hc Hf. destruct (Nat.eq_dec j k) as [->|Hn].
+  2:{ rewrite (bstep_frame _ _ _ H j Hn). auto. }
+  assert (Hl : live s k = None) by (unfold live; rewrite Hc, Hf; reflexivity).
+  destruct H; auto.
+  - rewrite get_updp_same, Hc. simpl. unfold on_proto. rewrite Hf. reflexivity.
+  - unfold close_client. destruct (s_hung s); auto. rewrite Hl. auto.
+  - unfold connection_gone. destruct (s_hung s); auto. rewrite Hl. auto.
+Qed.
+
+Lemma gstep_freed_stays : forall s s', gstep s s' -> forall j c, get s j = Some c ->
+  l_freed (c_life c) = true -> get s' j = Some c.
+Proof.
+  intros s s' H j c Hc Hf. destruct H; auto.
+  - eapply bstep_freed_stays; eauto.
+  - apply get_add_conn_old; auto.
+  - destruct (Nat.eq_dec j k) as [->|Hn].
+    + destruct (live_some _ _ _ H) as [Hg Hnf]. rewrite Hg in Hc. inversion Hc; subst. congruence.
+    + unfold run_new_hook, get. simpl. rewrite nth_upd_other; auto.
+Qed.
+
+Lemma reach_freed_stays : forall s s', reach s s' -> forall j c, get s j = Some c ->
+  l_freed (c_life c) = true -> get s' j = Some c.
+Proof. intros s s' H. induction H; intros j c Hc Hf; auto. eapply gstep_freed_stays; eauto. Qed.
+
+Theorem iteration_exact : forall cfg ops k,
+  In k (iter_clients (run cfg ops)) <->
+  exists c, get (run cfg ops) k = Some c /\ l_freed (c_life c) = false /\ l_open (c_life c) = true.
+Proof.
+  intros cfg ops k. unfold iter_clients. rewrite filter_In. split.
+  - intros [_ H]. apply iteration_yields_open_only; auto.
+  - intros [c [Hg [Hf Ho]]]. split.
+    + apply listed_iff_not_freed. eauto.
+    + unfold is_open, live. rewrite Hg, Hf. exact Ho.
+Qed.
+
+Theorem freed_never_iterated_again : forall cfg ops ops' k c,
+  get (run cfg ops) k = Some c -> l_freed (c_life c) = true ->
+  ~ In k (iter_clients (run cfg (ops ++ ops'))).
+Proof.
+  intros cfg ops ops' k c Hg Hf Hin. rewrite run_app in Hin.
+  assert (R : reach (run cfg ops) (fold_left step ops' (run cfg ops))) by (apply reach_run_from; apply r_refl).
+  pose proof (reach_freed_stays _ _ R k c Hg Hf) as Hg'.
+  unfold iter_clients in Hin. apply filter_In in Hin. destruct Hin as [_ Ho].
+  unfold is_open, live in Ho. rewrite Hg', Hf in Ho. discriminate.
+Qed.
+
+(* ---- descriptor set: in every reachable state the descriptor of every open client is in allFds and
+   not above maxFd, whatever was closed, torn down or accepted around it *)
+Definition fd_inv (s : screen) : Prop :=
+  forall k c, get s k = Some c ->
+    c_fd c = fd_of k /\
+    (l_freed (c_life c) = false -> l_open (c_life c) = true ->
+       In (fd_of k) (s_allfds s) /\ (fd_of k <= s_maxfd s)%Z).
+
+Lemma in_remove_fd : forall y l x, In x (remove_fd y l) <-> In x l /\ x <> y.
+Proof.
+  induction l as [|a l IH]; simpl; intros x. { tauto. }
+  destruct (a =? y)%Z eqn:E.
+  - apply Z.eqb_eq in E. subst a. rewrite IH. split; [tauto|]. intros [[->|H] N]; [congruence|tauto].
+  - apply Z.eqb_neq in E. simpl. rewrite IH. split.
+    + intros [->|[H N]]; [split; auto | tauto].
+    + intros [[->|H] N]; [left; auto | right; tauto].
+Qed.
+
+Lemma lower_max_ge : forall fds mx x, In x fds -> (0 < x)%Z -> (x <= mx)%Z -> (x <= lower_max fds mx)%Z.
+Proof.
+  unfold lower_max. induction fds as [|a fds IH]; simpl; intros mx x H H0 H1. { tauto. }
+  destruct H as [->|H].
+  - assert (E : ((0 <? x) && (x <=? mx))%Z = true)
+      by (apply andb_true_iff; split; [apply Z.ltb_lt | apply Z.leb_le]; auto).
+    rewrite E. simpl. lia.
+  - specialize (IH mx x H H0 H1). destruct ((0 <? a) && (a <=? mx))%Z; simpl; lia.
+Qed.
+
+Lemma fd_of_inj : forall a b, fd_of a = fd_of b -> a = b.
+Proof. unfold fd_of. intros. lia. Qed.
+Lemma fd_of_pos : forall k, (200 <= fd_of k)%Z.
+Proof. unfold fd_of, FDBASE. intros. lia. Qed.
+
+Lemma gone_fds : forall k s,
+  s_allfds (connection_gone k s) = s_allfds s /\ s_maxfd (connection_gone k s) = s_maxfd s.
+Proof.
+  intros. unfold connection_gone. destruct (s_hung s); auto. destruct (live s k) as [c|]; auto.
+  destruct (p_outlock (c_proto c) || p_sendlock (c_proto c)); simpl; auto.
+  unfold adj_ref. destruct (p_scaled (c_proto c)); simpl; destruct (s_ptr s) as [j0|]; simpl;
+    try destruct (Nat.eqb j0 k); simpl; auto.
+Qed.
+
+Lemma bstep_fd : forall k s s', bstep k s s' -> fd_inv s -> fd_inv s'.
+Proof.
+  intros k s s' H I. destruct H; try exact I.
+  - (* updp *) intros j c Hc. destruct (Nat.eq_dec j k) as [->|Hn].
+    + rewrite get_updp_same in Hc. destruct (get s k) as [c0|] eqn:E; simpl in Hc; inversion Hc; subst c.
+      destruct (I k c0 E) as [F1 F2]. unfold on_proto. destruct (l_freed (c_life c0)) eqn:Ef; simpl.
+      * split; auto. intros; congruence.
+      * split; auto.
+    + rewrite get_updp_other in Hc by auto. apply I; auto.
+  - (* close *) unfold close_client. destruct (s_hung s); [exact I|].
+    destruct (live s k) as [c0|] eqn:E; [|exact I]. destruct (l_open (c_life c0)) eqn:O; [|exact I].
+    destruct (live_some _ _ _ E) as [Hg Hnf]. destruct (I k c0 Hg) as [Fk _].
+    intros j c Hc. unfold get in Hc. simpl in Hc. destruct (Nat.eq_dec j k) as [->|Hn].
+    + rewrite nth_upd_same in Hc. unfold get in Hg. rewrite Hg in Hc. simpl in Hc. inversion Hc; subst c. simpl.
+      split; auto. intros _ Ho. discriminate.
+    + rewrite nth_upd_other in Hc by auto. destruct (I j c Hc) as [F1 F2]. split; auto.
+      intros A B. destruct (F2 A B) as [Hin Hle]. simpl. split.
+      * apply in_remove_fd. split; auto. rewrite Fk. intro Heq. apply fd_of_inj in Heq. contradiction.
+      * destruct (c_fd c0 =? s_maxfd s)%Z; auto. apply lower_max_ge; auto.
+        -- apply in_remove_fd. split; auto. rewrite Fk. intro Heq. apply fd_of_inj in Heq. contradiction.
+        -- pose proof (fd_of_pos j). lia.
+  - (* gone *) intros j c' Hc. destruct (gone_fds k s) as [Ea Em]. rewrite Ea, Em.
+    destruct (Nat.eq_dec j k) as [->|Hn].
+    2:{ rewrite (bstep_frame _ _ _ (b_gone k s) j Hn) in Hc. apply I; auto. }
+    revert Hc. unfold connection_gone. destruct (s_hung s); [apply I|].
+    destruct (live s k) as [c0|] eqn:E; [|apply I].
+    destruct (live_some _ _ _ E) as [Hg Hnf]. destruct (I k c0 Hg) as [F1 F2].
+    destruct (p_outlock (c_proto c0) || p_sendlock (c_proto c0)).
+    { intros Hc. assert (E2 := get_updp_same k drop_ft s). rewrite Hg in E2. simpl in E2.
+      change (get (updp k drop_ft s) k = Some c') in Hc. rewrite E2 in Hc. inversion Hc; subst c'.
+      unfold on_proto. rewrite Hnf. simpl. split; auto. }
+    intros Hc. unfold get, adj_ref in Hc. unfold get in Hg.
+    destruct (p_scaled (c_proto c0)); simpl in Hc; destruct (s_ptr s) as [j0|]; simpl in Hc;
+      try destruct (Nat.eqb j0 k); simpl in Hc; rewrite nth_upd_same, Hg in Hc; simpl in Hc;
+      inversion Hc; subst c'; simpl; (split; [auto | intros; discriminate]).
+Qed.
+
+Lemma gstep_fd : forall s s', gstep s s' -> fd_inv s -> fd_inv s'.
+Proof.
+  intros s s' H I. destruct H; try exact I.
+  - eapply bstep_fd; eauto.
+  - (* the listening socket goes away *) intros j c Hc. destruct (I j c Hc) as [F1 F2]. split; auto.
+    intros A B. destruct (F2 A B) as [Hin Hle]. simpl. split; auto.
+    apply in_remove_fd. split; auto. pose proof (fd_of_pos j). unfold LISTEN_FD. lia.
+  - (* a connection is accepted *) intros j c Hc. unfold add_conn, get in Hc. simpl in Hc.
+    destruct (Nat.lt_ge_cases j (length (s_conns s))) as [Hlt|Hge].
+    + rewrite nth_error_app1 in Hc by auto. destruct (I j c Hc) as [F1 F2]. split; auto.
+      intros A B. destruct (F2 A B) as [Hin Hle]. unfold add_conn. simpl. split; [right; auto | lia].
+    + rewrite nth_error_app2 in Hc by auto.
+      destruct (j - length (s_conns s))%nat as [|n] eqn:Ej.
+      * simpl in Hc. inversion Hc; subst c. assert (j = length (s_conns s)) by lia. subst j.
+        unfold new_conn. simpl. split; auto. intros _ _. unfold add_conn. simpl. split; [left; auto | lia].
+      * simpl in Hc. destruct n; discriminate.
+  - (* newClientHook *) intros j c' Hc. unfold run_new_hook, get in Hc. simpl in Hc.
+    destruct (live_some _ _ _ H) as [Hg Hnf]. destruct (Nat.eq_dec j k) as [->|Hn].
+    + rewrite nth_upd_same in Hc. unfold get in Hg. rewrite Hg in Hc. simpl in Hc. inversion Hc; subst c'. simpl.
+      apply (I k c); auto.
+    + rewrite nth_upd_other in Hc by auto. apply (I j c'); auto.
+Qed.
+
+Lemma reach_fd : forall s s', reach s s' -> fd_inv s -> fd_inv s'.
+Proof. intros s s' H. induction H; auto. intros. eapply gstep_fd; eauto. Qed.
+
+Theorem open_clients_stay_in_fd_set : forall cfg ops k c,
+  get (run cfg ops) k = Some c -> l_freed (c_life c) = false -> l_open (c_life c) = true ->
+  In (c_fd c) (s_allfds (run cfg ops)) /\ (c_fd c <= s_maxfd (run cfg ops))%Z.
+Proof.
+  intros cfg ops k c Hg Hf Ho.
+  assert (I : fd_inv (run cfg ops)).
+  { apply (reach_fd (init cfg)).
+    - unfold run. apply reach_run_from. apply r_refl.
+    - intros j c0 Hc. unfold get, init in Hc. simpl in Hc. destruct j; discriminate. }
+  destruct (I k c Hg) as [F1 F2]. rewrite F1. apply F2; auto.
 Qed.
 
 Theorem teardown_frame : forall k j s, j <> k ->
